@@ -135,3 +135,78 @@ def dyadic_grid(draw, min_pts=3, max_pts=20, steps=(0.0625, 0.125, 0.25, 0.5, 1.
     dt = draw(st.sampled_from(list(steps)))
     n = draw(st.integers(min_pts, max_pts))
     return [i * dt for i in range(n)]
+
+
+# ---------------------------------------------------------------------------------------------------
+# general-rate templates (non-negative on the non-negative orthant; every symbol is a species or a parameter)
+def positive_tree(b, species, smooth=False, time=False):
+    """A non-negative rate expression over `species`; parameters are created in the builder as needed."""
+    draw = b.draw
+    s1 = sym(draw(st.sampled_from(species)))
+    s2 = sym(draw(st.sampled_from(species)))
+    k = sym(b.new_param(draw(logfl(0.05, 5))))
+    K = sym(b.new_param(draw(logfl(0.3, 8))))
+    choices = ["mm", "inhib", "prod_sat", "poly", "expdecay", "ratio2"]
+    if not smooth:
+        choices += ["min", "max", "absdiff", "step"]
+    if time:
+        choices += ["t_decay", "t_sat"]
+    c = draw(st.sampled_from(choices))
+    if c == "mm":
+        return ["div", ["mul", k, s1], ["add", K, s1]]
+    if c == "inhib":
+        return ["div", k, ["add", num(1), s1, s2]]
+    if c == "prod_sat":
+        return ["div", ["mul", k, s1, s2], ["add", K, s1]]
+    if c == "poly":
+        return ["mul", k, ["add", s1, num(draw(st.sampled_from([0.5, 1.0, 2.0])))]]
+    if c == "expdecay":
+        return ["mul", k, ["exp", ["neg", ["div", s1, K]]]]
+    if c == "ratio2":
+        return ["div", ["mul", k, ["pow", s1, num(2)]], ["add", ["pow", K, num(2)], ["pow", s1, num(2)]]]
+    if c == "min":
+        return ["mul", k, ["min", s1, K]]
+    if c == "max":
+        return ["mul", k, ["max", s1, s2]]
+    if c == "absdiff":
+        return ["mul", k, ["abs", ["sub", s1, K]]]
+    if c == "step":
+        return ["mul", k, ["step", ["sub", s1, num(draw(st.sampled_from([0.5, 1.5, 2.5])))]]]
+    if c == "t_decay":
+        return ["mul", k, s1, ["exp", ["neg", ["mul", num(draw(st.sampled_from([0.25, 0.5, 1.0]))), ["t"]]]]]
+    if c == "t_sat":
+        return ["div", ["mul", k, ["t"]], ["add", num(1), ["t"]]]
+    raise ValueError(c)
+
+
+def any_reaction(b, species, types=ref.PROP_TYPES, max_reactants=4, max_products=4, delay_prob=4, smooth=False,
+                 time=False):
+    """A structurally arbitrary reaction (no dynamical constraints)."""
+    draw = b.draw
+    typ = draw(st.sampled_from(list(types)))
+    reactants = draw(st.lists(st.sampled_from(species), max_size=max_reactants))
+    products = draw(st.lists(st.sampled_from(species), max_size=max_products))
+    if typ == "massaction":
+        rx = massaction(b, reactants, products)
+    elif typ in ref.HILL_TYPES:
+        rx = hill(b, typ, reactants, products, draw(st.sampled_from(species)), draw(st.sampled_from(species)))
+    else:
+        rx = general(reactants, products, positive_tree(b, species, smooth=smooth, time=time))
+    if delay_prob and draw(st.integers(0, delay_prob - 1)) == 0:
+        rx["delay"] = draw_delay(b, species)
+    return rx
+
+
+@st.composite
+def structural_models(draw, min_rx=1, max_rx=5, types=ref.PROP_TYPES, delay_prob=4, smooth=False, time=False,
+                      max_species=5, integer_x0=False):
+    species = draw(species_names(2, max_species))
+    species = list(draw(st.permutations(species)))
+    b = Builder(draw, species)
+    for _ in range(draw(st.integers(min_rx, max_rx))):
+        b.reactions.append(any_reaction(b, species, types, delay_prob=delay_prob, smooth=smooth, time=time))
+    if integer_x0:
+        x0 = {s: float(draw(st.integers(0, 12))) for s in species}
+    else:
+        x0 = {s: draw(st.one_of(st.integers(0, 12).map(float), nice(0, 12))) for s in species}
+    return b.spec(x0)
